@@ -11,8 +11,8 @@
 #   deterministically on every run (9 188 960 done() calls, ~1.5 s).
 CHECK = {
     "harnesses": [
-        {"exe": "c11_early_stopping", "flavour": "plain", "cases": (13200, 560000), "procs": (4, 6), "subs": ["exhaustive", "random"]},
-        {"exe": "c11_models", "flavour": "plain", "cases": (6000, 160000), "procs": (8, 12), "subs": ["linear", "gboost"]},
+        {"exe": "c11_early_stopping", "flavour": "plain", "cases": (13200, 560000), "procs": (4, 4), "subs": ["exhaustive", "random"]},
+        {"exe": "c11_models", "flavour": "plain", "cases": (6000, 160000), "procs": (4, 8), "subs": ["linear", "gboost"]},
     ],
     "min_nontrivial": (3000, 60000),
     "timeout": (900, 7200),
